@@ -93,7 +93,7 @@ plan('C20',
          'because every representative is >= 0, Matrix4::rotation() always takes its first branch over the field (the other three are covered in float/double only)',
          'least squares over F_p is judged only when AtA is nonsingular (full column rank does not imply that over a finite field)',
          'floating point: kappa is the infinity-norm condition number from a long-double Gauss-Jordan inverse; matrices with kappa > 1000 are skipped and counted; '
-         'least squares is judged against the normal equations (kappa of AtA)',
+         'least squares is judged against the normal equations (kappa of AtA); its error scale includes |A|t|b|, the size of the rounding error of forming At*b, which can cancel to a much smaller At*b',
          'rotations are compared as 3x3 matrices (Frobenius distance <= 1e-6 double, 2e-3 float) against a long-double reference: Hamilton quaternions, Rodrigues formula, '
          'documented Euler composition R[a0](x)R[a1](y)R[a2](z) for moving and the reverse for fixed ("*") axes',
          'eulerAngles() inputs whose deciding entry m(a0,a2) lies within 16 eps below 1 in magnitude are judged in the separate modes rot_nd/euler_nd, not in rot/euler',
